@@ -19,6 +19,7 @@ import (
 	"fmt"
 	"os"
 	"regexp"
+	"sort"
 	"strings"
 	"sync"
 	"time"
@@ -66,7 +67,7 @@ func familyOK(stage, code string) bool {
 		return code == "E2007"
 	case "lex":
 		return strings.HasPrefix(code, "E1") && code != "E1006" && code != "E1007"
-	case "parse", "empty":
+	case "parse", "empty", "nested":
 		return strings.HasPrefix(code, "E2") && code != "E2007"
 	}
 	return false
@@ -137,6 +138,13 @@ func main() {
 	ss := sh.Stat("shared-root shape (one error object for the empty stage, written by position-tracking entry points): a run depends on the call before it")
 	ss.ExpectViol = "Reproducible"
 	run.AddTLC(ss)
+	rb, err := core.RunTLC(core.TLCOpts{Spec: "ErrorValue", Cfg: "ErrorValue_rebuilt.cfg", Workers: 2, Timeout: 2 * time.Minute})
+	if err != nil || rb.Violation != "CausesKept" {
+		core.Fatalf("ErrorValue_rebuilt.cfg must violate CausesKept (got %q, %v)", rb.Violation, err)
+	}
+	rs := rb.Stat("rebuilt shape (a frame copies the first structured error into a new one): the causes under it are cut off")
+	rs.ExpectViol = "CausesKept"
+	run.AddTLC(rs)
 	type pair struct{ Ep, Stage, Family string }
 	pairs := map[pair]bool{}
 	quads := map[quad]bool{}
@@ -231,6 +239,19 @@ func main() {
 	}
 	for _, e := range []string{"", ";", ";;;\n  ;", "  \n\t", "-- nothing\n", "/* nothing */ ;"} {
 		byStage["empty"] = append(byStage["empty"], input{"empty", e, "no-statement"})
+	}
+	// nested: a grammar problem inside a construct whose parser reports the inner diagnostic as its cause
+	for _, outer := range []string{"CREATE VIEW v AS %s", "CREATE MATERIALIZED VIEW v AS %s", "CREATE TABLE t2 AS %s", "WITH c AS (%s) SELECT a FROM c",
+		"SELECT a FROM t WHERE b IN (%s)", "SELECT * FROM (%s) x", "INSERT INTO t %s", "SELECT a FROM t WHERE EXISTS (%s)",
+		"MERGE INTO t USING (%s) s ON t.a = s.a WHEN MATCHED THEN DELETE", "SELECT a FROM t UNION %s", "EXPLAIN %s"} {
+		for _, inner := range []string{"SELECT FROM", "SELECT a FROM t WHERE", "SELECT a FROM", "SELECT a FROM t ORDER BY", "SELECT a FROM t WHERE b = (1"} {
+			byStage["nested"] = append(byStage["nested"], input{"nested", fmt.Sprintf(outer, inner), "inner-corruption:" + firstN(outer, 24)})
+		}
+	}
+	for _, m := range []string{"MERGE INTO t USING s ON t.a = WHEN MATCHED THEN DELETE", "MERGE INTO t USING s ON t.a = s.a WHEN MATCHED AND THEN DELETE",
+		"MERGE INTO t USING s ON t.a = s.a WHEN MATCHED THEN UPDATE SET a =", "MERGE INTO t USING s ON t.a = s.a WHEN NOT MATCHED THEN INSERT (a) VALUES (",
+		"MERGE INTO USING s ON t.a = s.a WHEN MATCHED THEN DELETE", "MERGE INTO t USING ON t.a = s.a WHEN MATCHED THEN DELETE"} {
+		byStage["nested"] = append(byStage["nested"], input{"nested", m, "merge-part"})
 	}
 	byStage["size"] = []input{{"size", "SELECT 1" + strings.Repeat(" ", tokenizer.MaxInputSize-7), "size+1"}}
 	byStage["tokens"] = []input{{"tokens", "SELECT 1" + strings.Repeat(",1", tokenizer.MaxTokens/2+10), "tokens+"}}
@@ -341,6 +362,7 @@ func main() {
 		run.Extra["call_pairs_with_a_call_between"] = n
 	}
 	recoveryUnwrap(byStage["parse"])
+	causeChains(byStage, tier)
 	cancellation()
 	run.Traces(int64(len(pairs)))
 	run.Exhaustive = false
@@ -348,6 +370,81 @@ func main() {
 }
 
 type quad struct{ Ep, Stage, Family, Ep2, Stage2 string }
+
+// codeChain lists the codes of the structured errors met when err is unwrapped layer by layer.
+func codeChain(err error) []string {
+	var out []string
+	for e := err; e != nil; e = errors.Unwrap(e) {
+		if se, ok := e.(*gerrors.Error); ok && se != nil {
+			out = append(out, string(se.Code))
+		}
+	}
+	return out
+}
+
+func isSubsequence(small, big []string) bool {
+	i := 0
+	for _, b := range big {
+		if i < len(small) && small[i] == b {
+			i++
+		}
+	}
+	return i == len(small)
+}
+
+// causeChains (CausesKept): the failing stage builds a chain of structured errors (one, or two when the problem sits
+// inside a construct that reports the inner diagnostic as its cause); the frames of an entry point may add layers but
+// never cut the chain, so the longest chain any entry point exposes for an input is exposed by every entry point.
+func causeChains(byStage map[string][]input, tier string) {
+	var names []string
+	for n := range points {
+		names = append(names, n)
+	}
+	sort.Strings(names)
+	deep := 0
+	for _, st := range []string{"nested", "parse", "depth", "lex", "empty"} {
+		ins := byStage[st]
+		for i, in := range ins {
+			if tier != "thorough" && st != "nested" && i%5 != 0 {
+				continue
+			}
+			chains := map[string][]string{}
+			var ref []string
+			refEp := ""
+			for _, n := range names {
+				o := points[n].Run(in.text)
+				run.Eval(1)
+				if o.Accept || o.Raw == nil {
+					continue
+				}
+				c := codeChain(o.Raw)
+				chains[n] = c
+				if len(c) > len(ref) {
+					ref, refEp = c, n
+				}
+			}
+			if len(ref) >= 2 {
+				deep++
+				run.Nontrivial("chain\x00" + in.text)
+			}
+			for _, n := range names {
+				c, ok := chains[n]
+				if !ok || n == "Tokenizer.Tokenize" && st != "lex" {
+					continue
+				}
+				if !isSubsequence(ref, c) {
+					run.Violate(core.Violation{Sig: "cause-cut|" + n + "|" + st, Clause: "wrapped causes remain reachable with errors.Is/errors.As",
+						Case:    map[string]any{"entry_point": n, "stage": st, "input": firstN(in.text, 200), "origin": in.origin},
+						Observe: map[string]any{"structured_errors_reachable": c}, Expect: map[string]any{"entry_point": refEp, "structured_errors_reachable": ref}})
+				}
+			}
+		}
+	}
+	run.Extra["inputs_with_a_chain_of_two_or_more_structured_errors"] = deep
+	if deep < 20 {
+		core.Fatalf("only %d inputs produce a chain of two structured errors", deep)
+	}
+}
 
 // between runs call (q.Ep, x), then (q.Ep2, y), then (q.Ep, x) again for representative inputs of the two stages.
 func between(q quad, rep func(string) []input, tier string) {
